@@ -204,10 +204,6 @@ func c16Run(c *fw.Ctx) {
 		names = append(names, k)
 	}
 	sort.Strings(names)
-	bound := 2
-	if c.Thorough() {
-		bound = 4
-	}
 	variant := func(args []string, ci int) []string {
 		// give each client a distinguishable written value where the command writes one
 		out := append([]string{}, args...)
@@ -219,44 +215,61 @@ func c16Run(c *fw.Ctx) {
 		}
 		return out
 	}
+	type scen struct {
+		cs    c16Case
+		class string
+	}
+	var pairs, pairReads, triples []scen
 	for _, store := range []string{"reference", "example"} {
 		for _, initial := range [][][]string{nil, {{"SET", "k", "1"}}} {
 			for i, a := range names {
 				for _, b := range names[i:] {
-					if !c.Mine() {
-						continue
-					}
-					if c.Expired() {
-						return
-					}
-					cs := c16Case{Store: store, Initial: initial, Ops: [][][]string{{variant(kinds[a], 0)}, {variant(kinds[b], 1)}}}
-					c16Explore(c, cs, bound, store+"|"+a+"+"+b)
-					if c.Thorough() {
-						// two operations per client: the pair followed by a read on each side
-						cs2 := c16Case{Store: store, Initial: initial, Ops: [][][]string{{variant(kinds[a], 0), {"GET", "k"}}, {variant(kinds[b], 1), {"GET", "k"}}}}
-						c16Explore(c, cs2, 3, store+"|"+a+"+"+b+"+reads")
-					}
+					pairs = append(pairs, scen{c16Case{Store: store, Initial: initial, Ops: [][][]string{{variant(kinds[a], 0)}, {variant(kinds[b], 1)}}}, store + "|" + a + "+" + b})
+					// two operations per client: the pair followed by a read on each side
+					pairReads = append(pairReads, scen{c16Case{Store: store, Initial: initial, Ops: [][][]string{{variant(kinds[a], 0), {"GET", "k"}}, {variant(kinds[b], 1), {"GET", "k"}}}}, store + "|" + a + "+" + b + "+reads"})
 				}
 			}
 		}
 	}
-	if c.Thorough() {
-		// triples on the reference store
-		for i, a := range names {
-			for j, b := range names[i:] {
-				for _, d := range names[i+j:] {
-					if !c.Mine() {
-						continue
-					}
-					if c.Expired() {
-						return
-					}
-					cs := c16Case{Store: "reference", Ops: [][][]string{{variant(kinds[a], 0)}, {variant(kinds[b], 1)}, {variant(kinds[d], 2)}}}
-					c16Explore(c, cs, 3, "reference|"+a+"+"+b+"+"+d)
-				}
+	for i, a := range names {
+		for j, b := range names[i:] {
+			for _, d := range names[i+j:] {
+				triples = append(triples, scen{c16Case{Store: "reference", Ops: [][][]string{{variant(kinds[a], 0)}, {variant(kinds[b], 1)}, {variant(kinds[d], 2)}}}, "reference|" + a + "+" + b + "+" + d})
 			}
 		}
 	}
+	// phases in order of increasing cost; each is complete only if every worker
+	// finished its share (<phase>_done == <phase>_scenarios in the evidence counters)
+	phase := func(name string, list []scen, bound int) bool {
+		if c.Shard == 0 {
+			c.Count(name+"_scenarios", int64(len(list)))
+		}
+		for _, sc := range list {
+			if !c.Mine() {
+				continue
+			}
+			if c.Expired() {
+				c.Cap("phase %s (deviation bound %d) stopped by the internal deadline; see the %s_done counter", name, bound, name)
+				return false
+			}
+			c16Explore(c, sc.cs, bound, sc.class)
+			if c.Expired() {
+				c.Cap("phase %s (deviation bound %d) stopped by the internal deadline; see the %s_done counter", name, bound, name)
+				return false
+			}
+			c.Count(name+"_done", 1)
+		}
+		return true
+	}
+	if !phase("p1_pairs_bound2", pairs, 2) || !c.Thorough() {
+		return
+	}
+	_ = phase("p2_pairs_bound3", pairs, 3) &&
+		phase("p3_pairs_then_reads_bound2", pairReads, 2) &&
+		phase("p4_triples_bound2", triples, 2) &&
+		phase("p5_pairs_bound4", pairs, 4) &&
+		phase("p6_pairs_then_reads_bound3", pairReads, 3) &&
+		phase("p7_triples_bound3", triples, 3)
 }
 
 func c16Explore(c *fw.Ctx, cs c16Case, bound int, class string) {
@@ -304,7 +317,7 @@ func init() {
 	fw.Register(&fw.Prop{
 		ID:          "C16",
 		Level:       "model_checking",
-		Rule:        "for every unordered pair of operation kinds from {GET, SET, SETNX, GETSET, INCR, DECRBY, APPEND, MSETNX, DEL} (thorough: also triples, and pairs followed by reads): 2 (3) clients issue them concurrently on one shared key (MSETNX over two keys, one shared), initial state absent or '1', through the real accept loop and connection goroutines, against (a) a reference store whose primitives are atomic steps each preceded by a scheduling point and (b) the instrumented example store (sync.Map operations are scheduling points); every schedule within deviation bound 2 (thorough 4); each complete execution yields a client-side history (invocation/response stamped with the scheduler's step counter) to which a final read-out of every key by a fresh connection is appended; porcupine checks the whole history for linearizability against the Redis model. A scenario is non-trivial when its schedules produce more than one distinct reply vector.",
+		Rule:        "for every unordered pair of operation kinds from {GET, SET, SETNX, GETSET, INCR, DECRBY, APPEND, MSETNX, DEL} (thorough: also triples, and pairs followed by reads): 2 (3) clients issue them concurrently on one shared key (MSETNX over two keys, one shared), initial state absent or '1', through the real accept loop and connection goroutines, against (a) a reference store whose primitives are atomic steps each preceded by a scheduling point and (b) the instrumented example store (sync.Map operations are scheduling points); every schedule within deviation bound 2; thorough continues in phases, each complete only when its <phase>_done counter equals <phase>_scenarios: pairs at bound 3, pairs followed by a read on each side at bound 2, triples (reference store) at bound 2, pairs at bound 4, pairs+reads at bound 3, triples at bound 3; each complete execution yields a client-side history (invocation/response stamped with the scheduler's step counter) to which a final read-out of every key by a fresh connection is appended; porcupine checks the whole history for linearizability against the Redis model. A scenario is non-trivial when its schedules produce more than one distinct reply vector.",
 		Assumptions: []string{"sequentially consistent interleavings", "histories of more than 3 clients or 2 operations per client are not explored"},
 		Run:         c16Run,
 		Replay:      c16Replay,
